@@ -91,7 +91,7 @@ func printReport(rep *engine.FuncReport, all bool) {
 	}
 	for _, ob := range rep.Obligations {
 		if all || ob.Status != "discharged" {
-			fmt.Printf("   %-12s %-60s %s [%s] %s\n", ob.Status, ob.Name, ob.Pos, ob.Backend, ob.Text)
+			fmt.Printf("   %-12s %-60s %s [%s %.2fs] %s\n", ob.Status, ob.Name, ob.Pos, ob.Backend, ob.TimeS, ob.Text)
 			if ob.Status == "refuted" && ob.Model != "" {
 				m := ob.Model
 				if len(m) > 1500 {
